@@ -21,7 +21,7 @@ RULE = (
     "in the prologue or at the top of the `while True:` body, Buzzer/LCD(+animation)/SerialMonitor in the prologue, prologue and body statements "
     "(device commands, reads, sleeps, counters, nested for/if, continue) interleaved with numbered markers, optionally no main loop at all, optionally a "
     "`break` whose innermost loop is the main loop; N in 0..4 and a random tape. Monitors on the firmware trace: (m1) prologue markers once, in order, "
-    "before pass 0; (m2) body markers once per pass in order, counters continue across passes; (m3) every device-owned pin/peripheral is configured "
+    "before pass 0, and values snapshotted by prologue first-assignments (single / tuple) equal the running value at that source position, in setup() and in every pass; (m2) body markers once per pass in order, counters continue across passes; (m3) every device-owned pin/peripheral is configured "
     "before its first use and never re-configured to another mode, servo attached before written, LCD begun before printed, Serial begun before used, "
     "motor pins driven to a safe stop in setup; (m4) per pass exactly one digitalRead per button and all injected work before the first user marker "
     "with no delay; (m5) main-loop `break` rejected with ValueError. Non-trivial = has a main loop and (a device declared at the top of the body, or a "
@@ -100,10 +100,42 @@ def phase_script(draw):
         else:
             pro += ["wq = 1", "while wq > 0:", "    wq = wq - 1", "    cnt = 0"]
         info["counter"] = True
+    # value-carrying prologue: pv is updated by run-once statements; snapshots (single and all-new tuple first assignments) taken at
+    # various source positions must hold the value pv had *there*, in setup() and in every later pass
+    info["pro_values"], info["loop_values"], info["pv_final"] = [], [], None
+    pv = None
+    snaps = []
+    if draw(st.booleans()):
+        pv = draw(st.integers(0, 9))
+        pro.append(f"pv = {pv}")
+
+    def value_step():
+        nonlocal pv
+        form = draw(st.sampled_from(["add", "add", "for", "if", "snap", "snap", "snap2"]))
+        k = len(snaps)
+        if form == "add":
+            d = draw(st.integers(1, 5)); pro.append(f"pv = pv + {d}"); pv += d
+        elif form == "for":
+            pro.extend(["for q in range(2):", "    pv = pv + 1"]); pv += 2
+        elif form == "if":
+            pro.extend(["if pv >= 0:", "    pv = pv * 2"]); pv *= 2
+        elif form == "snap":
+            off = draw(st.integers(0, 3))
+            pro.append(f"sn{k} = pv + {off}" if off else f"sn{k} = pv")
+            snaps.append((f"sn{k}", pv + off))
+        else:
+            pro.append(f"sn{k}, sn{k + 1} = pv, pv * 10")
+            snaps.extend([(f"sn{k}", pv), (f"sn{k + 1}", pv * 10)])
+        for name, val in snaps[k:]:
+            pro.append(f"mon.write('@V{name}=' + str({name}))")
+            info["pro_values"].append(f"@V{name}={val}")
+
     # prologue statements
     avail_pro = [k for k in kinds if where[k] == "pro"] + pro_kinds
     for _ in range(draw(st.integers(1, 5))):
         marker(pro, info["pro_markers"])
+        if pv is not None and draw(st.booleans()):
+            value_step()
         if avail_pro and draw(st.booleans()):
             k = draw(st.sampled_from(avail_pro))
             uses = (DEV.get(k) or PRO_ONLY.get(k))[2]
@@ -122,6 +154,12 @@ def phase_script(draw):
         marker(body, info["loop_markers"])
         if info["counter"]:
             body += ["cnt = cnt + 1", "mon.write(cnt)"]
+        if pv is not None:
+            for name, val in snaps:
+                body.append(f"mon.write('@W{name}=' + str({name}))")
+                info["loop_values"].append(f"@W{name}={val}")
+            body += ["pv = pv + 1", "mon.write('@X=' + str(pv))"]
+            info["pv_final"] = pv
         avail = kinds + [k for k in pro_kinds if not (info["anim"] and k in ("lcd", "lci"))]
         for _ in range(draw(st.integers(0, 5))):
             if avail and draw(st.booleans()):
@@ -193,6 +231,18 @@ def monitors(case, trace):
         stray = [s for s in sers(le) if s.startswith("@P")]
         if stray:
             fails.append(("m1-prologue-repeated-in-loop", "no prologue marker inside loop()", f"pass {i}: {stray}"))
+    # m1v values computed by the prologue at their source position
+    pv_ = [x for x in sers(setup) if x.startswith("@V")]
+    if pv_ != info.get("pro_values", []):
+        fails.append(("m1-prologue-value-not-computed-in-source-order", info.get("pro_values", []), pv_))
+    for i, le in enumerate(loops):
+        lv = [x for x in sers(le) if x.startswith("@W")]
+        if lv != info.get("loop_values", []):
+            fails.append(("m1-prologue-value-changed-in-loop", f"pass {i}: {info.get('loop_values', [])}", lv))
+        if info.get("pv_final") is not None:
+            xs = [x for x in sers(le) if x.startswith("@X=")]
+            if xs != [f"@X={info['pv_final'] + i + 1}"]:
+                fails.append(("m2-prologue-value-does-not-persist", f"pass {i}: @X={info['pv_final'] + i + 1}", xs))
     # m2 body markers once per pass in order; counter continues
     if any(s.startswith("@L") for s in sers(setup)):
         fails.append(("m2-body-ran-in-setup", "no body marker in setup()", sers(setup)))
